@@ -36,7 +36,7 @@ def showTreeErr : TreeErr → String
   | .emptyBranch => "emptyBranch" | .multiNext => "multiNext" | .noTasks => "noTasks"
 
 def showBuildErr : BuildErr → String
-  | .connector => "err:connector" | .processor => "err:processor" | .running => "err:running"
+  | .connector => "err:connector" | .connRunning => "err:connrunning" | .processor => "err:processor" | .running => "err:running"
   | .nosrc => "err:nosrc" | .nodst => "err:nodst" | .tail e => "err:tail:" ++ showTreeErr e
   | .sink => "err:sink" | .append e => "err:append:" ++ showTreeErr e | .worker => "err:worker"
 
